@@ -10,7 +10,7 @@
                        numbering, than every lock held at that moment (no cycle, no re-entry).
    The subject is a LOCK PROGRAM: the control-flow skeleton of a Go function reduced to its
    lock operations, blocking statements, calls (with the callee's summary) and exits.
-   Gen/GenLockSites.v (regenerated from the Go source by go2v/locksites.go) is a list of
+   Gen/GenLockProgs.v (regenerated from the Go source by go2v/lockprogs.go) is a list of
    such programs; this file gives them a semantics (every execution of the skeleton, with the
    trace of lock events and the locks held at each event) and states (1)-(3) over ALL
    executions.  Independent of the code. *)
